@@ -247,6 +247,10 @@ int handle_read(struct snapraid_handle* handle, block_off_t file_pos, unsigned c
 	if (!out_missing)
 		out_missing = out;
 
+	/* callers classify a failure looking at errno, but not all the failing */
+	/* paths set it: clear it to not inherit the EIO of a previous read */
+	errno = 0;
+
 	/* check if we are going to read only not initialized data */
 	if (offset >= handle->valid_size) {
 		/* if the file is missing, it's at 0 size, or it's rebuilt while reading */
